@@ -319,10 +319,10 @@ theorem openNext_couple (c : Obj) (i : Inner) {w wf : World} (h : Sim w wf) :
     | oof => exact Or.inr ⟨rfl, rfl, hs⟩
 
 theorem cpOpen_couple (c : Obj) {w wf : World} (h : Sim w wf) : CoupleT (cpOpen c w) (cpOpen c wf) := by
-  have ho := openOuter_couple c h
+  have ho := openOuter_couple { c with cur := none } h
   simp only [cpOpen]
-  generalize openOuter c w = x at *
-  generalize openOuter c wf = y at *
+  generalize openOuter { c with cur := none } w = x at *
+  generalize openOuter { c with cur := none } wf = y at *
   obtain ⟨ra, ca, w1⟩ := x
   obtain ⟨rb, cb, w2⟩ := y
   rcases ho with hf | ⟨he1, he2, hs⟩
